@@ -46,7 +46,7 @@ JudgeInfo(e) ==
     ELSE LET it == IF e.form = "bang" THEN e.items[1] ELSE ItemsFor(e, Target)[1] IN
          IF ~(\A i \in 1..Len(e.items) : HasAdmin(e.items[i])) THEN "HasAdmin"
          ELSE IF ~ViewsTruthful(it, MimesOf(Case.kind, Case.ext), SizeRef, KnownSize(Case.kind)) THEN "ViewsTruthful"
-         ELSE IF ~SidecarExact(it, Case.sc) THEN "SidecarExact"
+         ELSE IF ~SidecarExact(it, Case.sc, HasLinkAbs(Case.link)) THEN "SidecarExact"
          ELSE IF ~(IF e.form = "bang"
                    THEN Len(MenuFor(Target)) = 1 /\ it.info = MenuFor(Target)[1]
                    ELSE [i \in 1..Len(e.items) |-> e.items[i].info] = menu)
@@ -56,9 +56,9 @@ JudgeInfo(e) ==
 DriftInfo(e) ==
     LET it == IF e.form = "bang" THEN e.items[1] ELSE ItemsFor(e, Target)[1] IN
     /\ (IF e.first = "+-2" THEN TRUE ELSE RecordDrift(tid, l, "first line is not +-2"))
-    /\ (IF [i \in 1..Len(it.blocks) |-> it.blocks[i].name] = Tail(CodeBlockNames(Case.kind, Case.sc))
+    /\ (IF [i \in 1..Len(it.blocks) |-> it.blocks[i].name] = Tail(CodeBlockNames(Case.kind, Case.sc, Case.form, Case.link))
         THEN TRUE ELSE RecordDrift(tid, l, "block order differs from INFO ADMIN VIEWS + configured sidecar order"))
-    /\ (IF SidecarAsCoded(it, Case.kind, Case.sc) THEN TRUE ELSE RecordDrift(tid, l, "sidecar lines differ from the coded pipeline"))
+    /\ (IF SidecarAsCoded(it, Case.kind, Case.sc, Case.form, Case.link) THEN TRUE ELSE RecordDrift(tid, l, "sidecar lines differ from the coded pipeline"))
 
 JudgeDoc(e) == IF LenOrMarker(e.first, e.bodylen, DocRef) THEN "ok" ELSE "LenOrMarker"
 
